@@ -206,7 +206,8 @@ Theorem sniff_cassette cs :
   sniff (MCassette.write cs) = Ok (map of_cfile (map MCassette.norm cs), KCas).
 Proof.
   intros Hv Hne Hs. unfold sniff, MDisk.list_files. unfold tape_size_ok in Hs.
-  apply N.ltb_lt in Hs. rewrite Hs. rewrite (roundtrip cs Hv Hne). reflexivity.
+  apply N.ltb_lt in Hs. rewrite Hs. rewrite (roundtrip cs Hv Hne).
+  destruct cs as [|c r]; reflexivity.
 Qed.
 
 Theorem sniff_disk order ds st :
@@ -307,6 +308,102 @@ Proof.
   - apply store_modifies_only_if in E as [E|(_ & o' & E1 & E2)]; [discriminate|].
     inversion E1; subst. rewrite Hk in E2. inversion E2. contradiction.
   - now apply store_never_none in E.
+Qed.
+
+(* ---- what the tool's reading of the old content amounts to, container by container ---- *)
+
+(* CASSETTE: the content is empty, or the tape reader finds at least one complete file in it
+   (a name-file block, at least one data byte, an end-of-file block) *)
+Lemma sniff_cas_inv o fl : sniff o = Ok (fl, KCas) ->
+  o = [] \/ exists cs, MCassette.list_files o = Ok cs /\ cs <> [] /\ fl = map of_cfile cs.
+Proof.
+  unfold sniff. destruct (MDisk.list_files o) as [ds|c|c| |]; try discriminate.
+  destruct (MCassette.list_files o) as [cs|c'|c'| |] eqn:E; try discriminate.
+  destruct cs as [|c0 r].
+  - destruct o as [|b o']; [now left|discriminate].
+  - intros H. inversion H. right. exists (c0 :: r). split; [reflexivity|]. split; [discriminate|reflexivity].
+Qed.
+
+(* DISK: the content has exactly the size of a disk image and the disk reader lists it without error *)
+Lemma sniff_dsk_inv (o : list byte) fl : sniff o = Ok (fl, KDsk) ->
+  N.of_nat (length o) = IMAGE_SIZE /\ exists ds, MDisk.list_files o = Ok ds /\ fl = map of_dfile ds.
+Proof.
+  unfold sniff. destruct (MDisk.list_files o) as [ds|c|c| |] eqn:E.
+  - intros H. inversion H. split; [|now exists ds].
+    unfold MDisk.list_files in E.
+    destruct (N.of_nat (length o) <? IMAGE_SIZE) eqn:E1; [discriminate|].
+    destruct (IMAGE_SIZE <? N.of_nat (length o)) eqn:E2; [discriminate|].
+    apply N.ltb_ge in E1, E2. lia.
+  - destruct (MCassette.list_files o) as [cs|c'|c'| |]; try discriminate.
+    destruct cs as [|c0 r]; [destruct o|]; discriminate.
+  - discriminate.
+  - discriminate.
+  - discriminate.
+Qed.
+
+Theorem store_cassette_needs_tape_file append o new img :
+  store KCas append (Some o) new = Ok (Some img) ->
+  append = true /\ (o = [] \/ exists cs, MCassette.list_files o = Ok cs /\ cs <> []).
+Proof.
+  intros H. destruct (store_written _ _ _ _ _ H) as [_ [E|(Ha & o' & fl & E & Es)]]; [discriminate|].
+  inversion E; subst o'. split; [exact Ha|].
+  destruct (sniff_cas_inv o fl Es) as [->|(cs & H1 & H2 & _)]; [now left|right; now exists cs].
+Qed.
+
+Theorem store_disk_needs_disk_image append (o : list byte) new img :
+  store KDsk append (Some o) new = Ok (Some img) ->
+  append = true /\ N.of_nat (length o) = IMAGE_SIZE /\ exists ds, MDisk.list_files o = Ok ds.
+Proof.
+  intros H. destruct (store_written _ _ _ _ _ H) as [_ [E|(Ha & o' & fl & E & Es)]]; [discriminate|].
+  inversion E; subst o'. split; [exact Ha|].
+  destruct (sniff_dsk_inv o fl Es) as (Hl & ds & Hd & _). split; [exact Hl|now exists ds].
+Qed.
+
+(* the tape reader on content without any name-file header: nothing found, no error *)
+Lemma list_files_no_header o : seek [85; 60; 0] o = None -> MCassette.list_files o = Ok [].
+Proof.
+  intros H. unfold MCassette.list_files. cbn [list_files_fuel]. unfold list_files_step, read_file.
+  rewrite H. reflexivity.
+Qed.
+
+(* content shorter than a disk image that holds no tape name-file header ($55 $3C $00) anywhere —
+   text, machine code, arbitrary bytes — is BINARY: never a cassette, never a disk *)
+Lemma sniff_no_header (o : list byte) :
+  o <> [] -> N.of_nat (length o) < IMAGE_SIZE -> seek [85; 60; 0] o = None -> sniff o = Ok ([], KBin).
+Proof.
+  intros Hne Hl Hs. unfold sniff, MDisk.list_files. apply N.ltb_lt in Hl. rewrite Hl.
+  rewrite (list_files_no_header o Hs). destruct o; [contradiction|reflexivity].
+Qed.
+
+(* the repaired defect as a theorem: such content is refused by --to_cas and --to_dsk whatever the
+   append flag (it can only be replaced through --to_bin --append) *)
+Theorem store_no_header_refused req append (o : list byte) new :
+  req <> KBin -> o <> [] -> N.of_nat (length o) < IMAGE_SIZE -> seek [85; 60; 0] o = None ->
+  exists e, classify (store req append (Some o) new) = inr e.
+Proof.
+  intros Hr Hne Hl Hs. apply (store_other_kind_refused req KBin).
+  - unfold sniff_kind. rewrite (sniff_no_header o Hne Hl Hs). reflexivity.
+  - congruence.
+Qed.
+
+(* content shorter than a disk image is never taken for a disk *)
+Theorem store_short_never_disk append (o : list byte) new :
+  N.of_nat (length o) < IMAGE_SIZE -> exists e, classify (store KDsk append (Some o) new) = inr e.
+Proof.
+  intros Hl. destruct (store KDsk append (Some o) new) as [[img|]| | | |] eqn:E; cbn [classify]; eauto.
+  - apply store_disk_needs_disk_image in E as (_ & E & _). lia.
+  - now apply store_never_none in E.
+Qed.
+
+(* conversely the tool does recognise every well-formed tape stream (arbitrary leader / gap lengths,
+   any 1..255 chunking: PCassetteR.wf_stream) that holds at least one file, none with empty data, and
+   is shorter than a disk image: --to_cas --append on it proceeds *)
+Theorem sniff_wellformed_stream (o : list byte) cs :
+  wf_stream o cs -> cs <> [] -> Forall (fun c => c_data c <> []) cs -> N.of_nat (length o) < IMAGE_SIZE ->
+  sniff o = Ok (map of_cfile cs, KCas).
+Proof.
+  intros Hw Hne Hd Hl. unfold sniff, MDisk.list_files. apply N.ltb_lt in Hl. rewrite Hl.
+  rewrite (reads_any_wellformed_stream o cs Hw Hd). destruct cs; [contradiction|reflexivity].
 Qed.
 
 (* C10 (3): what is written is a complete image of the requested kind, holding old files then new *)
